@@ -148,8 +148,14 @@ fn scenario(a: &Args, rep: &mut Report, rng: &mut Rng, si: usize) {
 	let _ = w.wallets[0].refresh();
 	// the payment
 	let amount = 5_000_000_000 + rng.below(20_000_000_000);
+	// every other payment carries a time-to-live; it is mined in time (at most 3 blocks later), and the chain will
+	// be past the cutoff when the reorganisations happen
+	let ttl = if rng.chance(1, 2) { Some(4 + rng.below(3)) } else { None };
+	if ttl.is_some() {
+		rep.count("payment-carries-a-time-to-live-that-has-passed-when-it-is-reorganised-away");
+	}
 	let r = (|| -> Result<(uuid::Uuid, Transaction), libwallet::Error> {
-		let s1 = w.wallets[0].init_send(InitTxArgs { amount, minimum_confirmations: 1, selection_strategy_is_use_all: false, ..Default::default() })?;
+		let s1 = w.wallets[0].init_send(InitTxArgs { amount, minimum_confirmations: 1, selection_strategy_is_use_all: false, ttl_blocks: ttl, ..Default::default() })?;
 		w.wallets[0].lock_outputs(&s1)?;
 		let s2 = w.wallets[1].receive(&s1, None)?;
 		let s3 = w.wallets[0].finalize(&s2)?;
